@@ -43,7 +43,7 @@ func TestC10(t *testing.T) {
 	r.Rule = "the path space of C02 (SCION carriage) x a fault injected at every position: (a) invalid MAC on each later hop field, " +
 		"(b) each used egress interface down at its owner, and the sibling link towards the owner down at the ingress router, " +
 		"(c) a hop field expired at one AS only (that AS issues short-lived hop fields, virtual clock advanced), (d) a traceroute " +
-		"request with the ingress or egress router-alert flag on each hop field; the SCMP message the real router produces is walked " +
+		"request with the ingress or egress router-alert flag on each hop field; each with an IPv4 and an IPv6 source host; the SCMP message the real router produces is walked " +
 		"back through the real routers to the source host"
 	level := mc.Pick(0, 1)
 	maxLen := mc.Pick(4, 5)
@@ -73,7 +73,8 @@ func TestC10(t *testing.T) {
 			case o.SCMPFrom == src && len(o.Crossings) == 0 && o.DeliveredTo == netsim.HostUnderlay(src):
 				// answered by the first router: the message goes back to the underlay address the packet came from
 				r.Outcome("reply-delivered-by-first-router:" + cls)
-			case o.DeliveredTo != fmt.Sprintf("10.%d.1.10:%d", src+1, wantPort):
+			case !srcHostV6 && o.DeliveredTo != fmt.Sprintf("10.%d.1.10:%d", src+1, wantPort),
+				srcHostV6 && o.DeliveredTo != fmt.Sprintf("[fd00:%x::10]:%d", src+1, wantPort):
 				r.Violation("scmp-reply-delivered-to-wrong-host-or-port:"+cls, det)
 			default:
 				typ, _, body, ok := c10Reply(o.DeliveredRaw)
@@ -144,152 +145,158 @@ func TestC10(t *testing.T) {
 						continue
 					}
 					for _, p := range pathsBetween(n, src, dst, false) {
-						pkey := fmt.Sprintf("%s|%s>%s|%s", tp.Name, tp.ASes[src].IA, tp.ASes[dst].IA, metaSeq(p))
-						pk := packetFor(n, src, dst, p, []byte("c10-payload"))
-						raw, lay := pk.Serialize()
-						if jb.shortAS >= 0 {
-							// (c) expiry at one AS
-							base := n.Inject(raw, src, firstBR(n, src, p))
-							onPath := src == jb.shortAS
-							for _, ifc := range p.Metadata.Interfaces {
-								if ifc.IA == tp.ASes[jb.shortAS].IA {
-									onPath = true
-								}
+						for _, v6 := range []bool{false, true} { // address family of the source host: the reply is addressed to it
+							srcHostV6 = v6
+							pkey := fmt.Sprintf("%s|%s>%s|%s", tp.Name, tp.ASes[src].IA, tp.ASes[dst].IA, metaSeq(p))
+							if v6 {
+								pkey += "|src-host-ipv6"
 							}
-							if !onPath {
-								continue
-							}
-							judge(n, tp, "expired:"+pkey+fmt.Sprintf("|as=%s", tp.ASes[jb.shortAS].IA), base, src, jb.shortAS, 4, 40000,
-								func(b []byte) string { return "" })
-							continue
-						}
-						base := n.Inject(raw, src, firstBR(n, src, p))
-						if !base.Delivered || base.SCMPFrom >= 0 || base.DeliveredAS != dst {
-							continue
-						}
-						asSeq := []int{src}
-						for _, c := range base.Crossings {
-							asSeq = append(asSeq, c.To)
-						}
-						// (a) invalid MAC on each hop field
-						for h, off := range lay.HopOff {
-							tam := append([]byte{}, raw...)
-							tam[off+9] ^= 0x10
-							o := n.Inject(tam, src, firstBR(n, src, p))
-							judge(n, tp, fmt.Sprintf("badmac:%s|hop=%d", pkey, h), o, src, -1, 4, 40000, nil)
-						}
-						// (b) interfaces down
-						for k, c := range base.Crossings {
-							owner := tp.ASes[c.From].BROf[c.FromIf]
-							rt := n.Routers[c.From][owner]
-							orig := rt.VerifLink(c.FromIf)
-							rt.VerifSetLink(c.FromIf, downLink{orig})
-							o := n.Inject(raw, src, firstBR(n, src, p))
-							rt.VerifSetLink(c.FromIf, orig)
-							judge(n, tp, fmt.Sprintf("ifdown:%s|crossing=%d", pkey, k), o, src, c.From, 5, 40000, func(b []byte) string {
-								if len(b) < 16 || binary.BigEndian.Uint64(b) != uint64(tp.ASes[c.From].IA) || binary.BigEndian.Uint64(b[8:]) != uint64(c.FromIf) {
-									return fmt.Sprintf("external-interface-down body %x, want IA %s interface %d", b[:min(16, len(b))], tp.ASes[c.From].IA, c.FromIf)
+							pk := packetFor(n, src, dst, p, []byte("c10-payload"))
+							raw, lay := pk.Serialize()
+							if jb.shortAS >= 0 {
+								// (c) expiry at one AS
+								base := n.Inject(raw, src, firstBR(n, src, p))
+								onPath := src == jb.shortAS
+								for _, ifc := range p.Metadata.Interfaces {
+									if ifc.IA == tp.ASes[jb.shortAS].IA {
+										onPath = true
+									}
 								}
-								return ""
-							})
-							// the sibling link towards the owner, at every other router of that AS the packet passes
-							for _, st := range base.Steps {
-								if st.AS != c.From || st.BR == owner || st.Egress != c.FromIf {
+								if !onPath {
 									continue
 								}
-								rt2 := n.Routers[c.From][st.BR]
-								orig2 := rt2.VerifLink(c.FromIf)
-								rt2.VerifSetLink(c.FromIf, downLink{orig2})
+								judge(n, tp, "expired:"+pkey+fmt.Sprintf("|as=%s", tp.ASes[jb.shortAS].IA), base, src, jb.shortAS, 4, 40000,
+									func(b []byte) string { return "" })
+								continue
+							}
+							base := n.Inject(raw, src, firstBR(n, src, p))
+							if !base.Delivered || base.SCMPFrom >= 0 || base.DeliveredAS != dst {
+								continue
+							}
+							asSeq := []int{src}
+							for _, c := range base.Crossings {
+								asSeq = append(asSeq, c.To)
+							}
+							// (a) invalid MAC on each hop field
+							for h, off := range lay.HopOff {
+								tam := append([]byte{}, raw...)
+								tam[off+9] ^= 0x10
+								o := n.Inject(tam, src, firstBR(n, src, p))
+								judge(n, tp, fmt.Sprintf("badmac:%s|hop=%d", pkey, h), o, src, -1, 4, 40000, nil)
+							}
+							// (b) interfaces down
+							for k, c := range base.Crossings {
+								owner := tp.ASes[c.From].BROf[c.FromIf]
+								rt := n.Routers[c.From][owner]
+								orig := rt.VerifLink(c.FromIf)
+								rt.VerifSetLink(c.FromIf, downLink{orig})
 								o := n.Inject(raw, src, firstBR(n, src, p))
-								rt2.VerifSetLink(c.FromIf, orig2)
-								judge(n, tp, fmt.Sprintf("sibdown:%s|crossing=%d", pkey, k), o, src, c.From, 6, 40000, func(b []byte) string {
-									if len(b) < 24 || binary.BigEndian.Uint64(b) != uint64(tp.ASes[c.From].IA) || binary.BigEndian.Uint64(b[16:]) != uint64(c.FromIf) {
-										return fmt.Sprintf("internal-connectivity-down body %x, want IA %s egress %d", b[:min(24, len(b))], tp.ASes[c.From].IA, c.FromIf)
+								rt.VerifSetLink(c.FromIf, orig)
+								judge(n, tp, fmt.Sprintf("ifdown:%s|crossing=%d", pkey, k), o, src, c.From, 5, 40000, func(b []byte) string {
+									if len(b) < 16 || binary.BigEndian.Uint64(b) != uint64(tp.ASes[c.From].IA) || binary.BigEndian.Uint64(b[8:]) != uint64(c.FromIf) {
+										return fmt.Sprintf("external-interface-down body %x, want IA %s interface %d", b[:min(16, len(b))], tp.ASes[c.From].IA, c.FromIf)
 									}
 									return ""
 								})
-							}
-						}
-						// (d) traceroute with a router-alert flag on each hop field / side
-						body := make([]byte, 20)
-						binary.BigEndian.PutUint16(body, 40001)
-						binary.BigEndian.PutUint16(body[2:], 7)
-						for extv := 0; extv < 4; extv++ {
-							if extv > 0 && (extv != 1+int(walks)%3) {
-								continue // plain request always; one of the three extension-header layouts per path, rotating
-							}
-							tr := packetFor(n, src, dst, p, nil)
-							pad := []byte{1, 4, 0, 0, 0, 0}
-							tr.HasHBH, tr.HasE2E = extv&1 != 0, extv&2 != 0
-							if tr.HasHBH {
-								tr.HBH = pad
-							}
-							if tr.HasE2E {
-								tr.E2E = pad
-							}
-							tr.SetSCMP(130, 0, body)
-							traw, tlay := tr.Serialize()
-							for h, off := range tlay.HopOff {
-								for _, flag := range []byte{2, 1} { // I: ConsIngress alert, E: ConsEgress alert
-									ifID := binary.BigEndian.Uint16(traw[off+2:])
-									if flag == 1 {
-										ifID = binary.BigEndian.Uint16(traw[off+4:])
+								// the sibling link towards the owner, at every other router of that AS the packet passes
+								for _, st := range base.Steps {
+									if st.AS != c.From || st.BR == owner || st.Egress != c.FromIf {
+										continue
 									}
-									if ifID == 0 {
-										continue // no interface on that side of the hop field
-									}
-									tam := append([]byte{}, traw...)
-									tam[off] |= flag
-									o := n.Inject(tam, src, firstBR(n, src, p))
-									// the AS owning hop h (by position on the walked path) and whether the path really uses ifID there
-									wantAS := asSeq[c04HopOwner(traw, tlay)[h]]
-									used := false
-									for _, c := range base.Crossings {
-										if (c.From == wantAS && c.FromIf == ifID) || (c.To == wantAS && c.ToIf == ifID) {
-											used = true
+									rt2 := n.Routers[c.From][st.BR]
+									orig2 := rt2.VerifLink(c.FromIf)
+									rt2.VerifSetLink(c.FromIf, downLink{orig2})
+									o := n.Inject(raw, src, firstBR(n, src, p))
+									rt2.VerifSetLink(c.FromIf, orig2)
+									judge(n, tp, fmt.Sprintf("sibdown:%s|crossing=%d", pkey, k), o, src, c.From, 6, 40000, func(b []byte) string {
+										if len(b) < 24 || binary.BigEndian.Uint64(b) != uint64(tp.ASes[c.From].IA) || binary.BigEndian.Uint64(b[16:]) != uint64(c.FromIf) {
+											return fmt.Sprintf("internal-connectivity-down body %x, want IA %s egress %d", b[:min(24, len(b))], tp.ASes[c.From].IA, c.FromIf)
 										}
-									}
-									if !used {
-										continue // interface of a cut shortcut hop field, not traversed
-									}
-									trCheck := func(o netsim.Outcome) func(b []byte) string {
-										return func(b []byte) string {
+										return ""
+									})
+								}
+							}
+							// (d) traceroute with a router-alert flag on each hop field / side
+							body := make([]byte, 20)
+							binary.BigEndian.PutUint16(body, 40001)
+							binary.BigEndian.PutUint16(body[2:], 7)
+							for extv := 0; extv < 4; extv++ {
+								if extv > 0 && (extv != 1+int(walks)%3) {
+									continue // plain request always; one of the three extension-header layouts per path, rotating
+								}
+								tr := packetFor(n, src, dst, p, nil)
+								pad := []byte{1, 4, 0, 0, 0, 0}
+								tr.HasHBH, tr.HasE2E = extv&1 != 0, extv&2 != 0
+								if tr.HasHBH {
+									tr.HBH = pad
+								}
+								if tr.HasE2E {
+									tr.E2E = pad
+								}
+								tr.SetSCMP(130, 0, body)
+								traw, tlay := tr.Serialize()
+								for h, off := range tlay.HopOff {
+									for _, flag := range []byte{2, 1} { // I: ConsIngress alert, E: ConsEgress alert
+										ifID := binary.BigEndian.Uint16(traw[off+2:])
+										if flag == 1 {
+											ifID = binary.BigEndian.Uint16(traw[off+4:])
+										}
+										if ifID == 0 {
+											continue // no interface on that side of the hop field
+										}
+										tam := append([]byte{}, traw...)
+										tam[off] |= flag
+										o := n.Inject(tam, src, firstBR(n, src, p))
+										// the AS owning hop h (by position on the walked path) and whether the path really uses ifID there
+										wantAS := asSeq[c04HopOwner(traw, tlay)[h]]
+										used := false
+										for _, c := range base.Crossings {
+											if (c.From == wantAS && c.FromIf == ifID) || (c.To == wantAS && c.ToIf == ifID) {
+												used = true
+											}
+										}
+										if !used {
+											continue // interface of a cut shortcut hop field, not traversed
+										}
+										trCheck := func(o netsim.Outcome) func(b []byte) string {
+											return func(b []byte) string {
+												if len(b) < 20 || binary.BigEndian.Uint16(b) != 40001 || binary.BigEndian.Uint16(b[2:]) != 7 ||
+													binary.BigEndian.Uint64(b[4:]) != uint64(tp.ASes[wantAS].IA) || binary.BigEndian.Uint64(b[12:]) != uint64(ifID) {
+													return fmt.Sprintf("traceroute reply body %x, want id 40001 seq 7 IA %s interface %d", b[:min(20, len(b))], tp.ASes[wantAS].IA, ifID)
+												}
+												st := o.Steps[o.SCMPStep]
+												if tp.ASes[wantAS].BROf[ifID] != st.BR {
+													return fmt.Sprintf("answered by border router %d, interface %d is owned by %d", st.BR, ifID, tp.ASes[wantAS].BROf[ifID])
+												}
+												return ""
+											}
+										}
+										// the flagged interface is an egress interface of the path and its link is down: the traceroute request
+										// is still answered by the router owning the interface (the statement makes no exception)
+										for _, c := range base.Crossings {
+											if c.From != wantAS || c.FromIf != ifID {
+												continue
+											}
+											rtd := n.Routers[c.From][tp.ASes[c.From].BROf[c.FromIf]]
+											origL := rtd.VerifLink(c.FromIf)
+											rtd.VerifSetLink(c.FromIf, downLink{origL})
+											od := n.Inject(tam, src, firstBR(n, src, p))
+											rtd.VerifSetLink(c.FromIf, origL)
+											judge(n, tp, fmt.Sprintf("traceroute+ifdown:%s|hop=%d|flag=%d|ext=%d", pkey, h, flag, extv), od, src, wantAS, 131, 40001, trCheck(od))
+										}
+										judge(n, tp, fmt.Sprintf("traceroute:%s|hop=%d|flag=%d|ext=%d", pkey, h, flag, extv), o, src, wantAS, 131, 40001, func(b []byte) string {
 											if len(b) < 20 || binary.BigEndian.Uint16(b) != 40001 || binary.BigEndian.Uint16(b[2:]) != 7 ||
 												binary.BigEndian.Uint64(b[4:]) != uint64(tp.ASes[wantAS].IA) || binary.BigEndian.Uint64(b[12:]) != uint64(ifID) {
 												return fmt.Sprintf("traceroute reply body %x, want id 40001 seq 7 IA %s interface %d", b[:min(20, len(b))], tp.ASes[wantAS].IA, ifID)
 											}
+											// answered by the router owning the flagged interface
 											st := o.Steps[o.SCMPStep]
 											if tp.ASes[wantAS].BROf[ifID] != st.BR {
 												return fmt.Sprintf("answered by border router %d, interface %d is owned by %d", st.BR, ifID, tp.ASes[wantAS].BROf[ifID])
 											}
 											return ""
-										}
+										})
 									}
-									// the flagged interface is an egress interface of the path and its link is down: the traceroute request
-									// is still answered by the router owning the interface (the statement makes no exception)
-									for _, c := range base.Crossings {
-										if c.From != wantAS || c.FromIf != ifID {
-											continue
-										}
-										rtd := n.Routers[c.From][tp.ASes[c.From].BROf[c.FromIf]]
-										origL := rtd.VerifLink(c.FromIf)
-										rtd.VerifSetLink(c.FromIf, downLink{origL})
-										od := n.Inject(tam, src, firstBR(n, src, p))
-										rtd.VerifSetLink(c.FromIf, origL)
-										judge(n, tp, fmt.Sprintf("traceroute+ifdown:%s|hop=%d|flag=%d|ext=%d", pkey, h, flag, extv), od, src, wantAS, 131, 40001, trCheck(od))
-									}
-									judge(n, tp, fmt.Sprintf("traceroute:%s|hop=%d|flag=%d|ext=%d", pkey, h, flag, extv), o, src, wantAS, 131, 40001, func(b []byte) string {
-										if len(b) < 20 || binary.BigEndian.Uint16(b) != 40001 || binary.BigEndian.Uint16(b[2:]) != 7 ||
-											binary.BigEndian.Uint64(b[4:]) != uint64(tp.ASes[wantAS].IA) || binary.BigEndian.Uint64(b[12:]) != uint64(ifID) {
-											return fmt.Sprintf("traceroute reply body %x, want id 40001 seq 7 IA %s interface %d", b[:min(20, len(b))], tp.ASes[wantAS].IA, ifID)
-										}
-										// answered by the router owning the flagged interface
-										st := o.Steps[o.SCMPStep]
-										if tp.ASes[wantAS].BROf[ifID] != st.BR {
-											return fmt.Sprintf("answered by border router %d, interface %d is owned by %d", st.BR, ifID, tp.ASes[wantAS].BROf[ifID])
-										}
-										return ""
-									})
 								}
 							}
 						}
@@ -297,6 +304,7 @@ func TestC10(t *testing.T) {
 				}
 			}
 		}
+		srcHostV6 = false
 		r.AddGraph(walks, hops, walks)
 		r.Extra["fault_walks"] = walks
 	})
